@@ -131,6 +131,14 @@ SYNTH = {
                      "    description ~\n"
                      "    mtu *\n"
                      "sysname *\n"),
+    # cisco: a logic supplied by the harness (annet.rulebook.verif_harness, injected into sys.modules by setup()) that writes
+    # into every kind of value its rule argument holds - list attrs IN PLACE, nested dicts, new keys - as the anchors say
+    # logic functions do ("make_patch deep-copies rule attrs per (rule,key) because logic functions mutate them")
+    "T5": ("cisco", "snmp-server host * %logic=verif_harness.scribble\n"
+                    "logging * %logic=verif_harness.scribble %comment=!!keep!!\n"
+                    "interface *\n"
+                    "    description ~ %logic=verif_harness.scribble\n"
+                    "hostname *\n"),
 }
 SYNTH_ACL = {"T3": "ip access-list *\n    ~ %global\nntp server <srv>\nroute-map *\n    ~ %global\n",
              "T4": "interface * %prio=1\n    description ~ %cant_delete=1\n    mtu *\n"
@@ -162,6 +170,12 @@ SYNTH_JOBS = [
     {"id": "synth/T4/b", "text": "T4", "logic": "default", "add_comments": False, "acl": "T4",
      "old": [["interface Vlanif10", [["description mgmt", []], ["mtu 9000", []]]], ["sysname a", []]],
      "new": [["interface Vlanif10", []], ["sysname b", []]]},
+    {"id": "synth/T5/a", "text": "T5", "logic": "harness-scribble", "add_comments": True,
+     "old": [["snmp-server host 1.1.1.1", []], ["logging a", []], ["interface e1", [["description x", []]]], ["hostname r1", []]],
+     "new": [["snmp-server host 2.2.2.2", []], ["logging b", []], ["interface e1", [["description y", []]]], ["hostname r1", []]]},
+    {"id": "synth/T5/b", "text": "T5", "logic": "harness-scribble", "add_comments": True,
+     "old": [["hostname r1", []], ["interface e2", []]],
+     "new": [["hostname r2", []], ["snmp-server host 3.3.3.3", []], ["interface e2", [["description z", []]]]]},
     {"id": "synth/T3/b", "text": "T3", "logic": "default_instead_undo", "add_comments": False,
      "old": [["ip access-list B", [["permit 9", []]]], ["ntp server 3.3.3.3", []], ["no thing 1", []], ["stray row", []]],
      "new": [["route-map N", [["set z", []]]], ["stray row 2", []]]},
@@ -332,9 +346,31 @@ def build_jobs():
     return jobs
 
 
+def install_harness_logic():
+    """annet resolves %logic=verif_harness.scribble to annet.rulebook.verif_harness.scribble (import_rulebook_function)"""
+    import types as _types
+    name = "annet.rulebook.verif_harness"
+    if name in sys.modules:
+        return
+    mod = _types.ModuleType(name)
+
+    def scribble(rule, key, diff, **_):
+        from annet.annlib.rulebook import common
+        rule["comment"] += ["!!scribbled!!"]              # a list attr, in place
+        rule["context"]["seen"] = key                       # a nested dict
+        rule.setdefault("provides", []).append("x")         # a new key
+        rule["reverse"] = rule["reverse"] + " "            # re-assignment (as the shipped logics do)
+        yield from common.default(rule, key, diff)
+    mod.scribble = scribble
+    sys.modules[name] = mod
+    import annet.rulebook
+    annet.rulebook.verif_harness = mod
+
+
 def setup():
     global _JOBS, _JOB, _TEMPLATE, _TEMPLATE_TOTAL, _TEMPLATE_COLD
     env.setup()
+    install_harness_logic()
     if _JOBS is not None:
         return
     statehash.selftest()
